@@ -93,9 +93,18 @@ theorem validateShape_top_results_indep (c : Ctx) (i w : Bool) (hab : c.o.abortO
     by_cases hde : s.deactivated
     · simp [hde]
     · simp only [hde, Bool.false_eq_true, if_false]
-      have hrf : resolveFocus (c.withWaivers i w) s focus = resolveFocus c s focus := rfl
+      have hx : (if focus.isNone = true ∧ (c.withWaivers i w).o.advanced = true then
+            advancedFocus (c.withWaivers i w).sg (c.withWaivers i w).tts (c.withWaivers i w).adv s.node
+          else Except.ok []) =
+          (if focus.isNone = true ∧ c.o.advanced = true then advancedFocus c.sg c.tts c.adv s.node else Except.ok []) := rfl
+      rw [hx]
+      cases (if focus.isNone = true ∧ c.o.advanced = true then advancedFocus c.sg c.tts c.adv s.node else Except.ok []) with
+      | error e => rfl
+      | ok extra =>
+      simp only []
+      have hrf : resolveFocus (c.withWaivers i w) s focus extra = resolveFocus c s focus extra := rfl
       rw [hrf]
-      cases resolveFocus c s focus with
+      cases resolveFocus c s focus extra with
       | none => rfl
       | some fl =>
         simp only []
@@ -168,6 +177,18 @@ theorem runValidate_results_indep (o : Opts) (i w : Bool) (hab : o.abortOnFirst 
   | error e => rfl
   | ok shapes =>
     simp only []
-    exact validateAll_results_indep ⟨⟨sg, dg, shapes, rx, fun _ _ => none, fun _ => none, findComponents sg, fun _ _ _ _ => none⟩, { o with focusNodes := if focus = [] then none else some focus }⟩ i w hab shapes none
+    have hadv : (o.withWaivers i w).advanced = o.advanced := rfl
+    rw [hadv]
+    cases (if o.advanced = true then
+        match gatherTargetTypes sg, gatherFunctions sg with
+        | Except.error e, _ => Except.error e
+        | _, Except.error e => Except.error e
+        | Except.ok tts, Except.ok fns => Except.ok (fns, tts)
+      else Except.ok ([], [])) with
+    | error e => rfl
+    | ok pr =>
+      obtain ⟨fns, tts⟩ := pr
+      simp only []
+      exact validateAll_results_indep ⟨⟨sg, dg, shapes, rx, fun _ _ => none, fun _ => none, findComponents sg, fun _ _ _ _ => none, fns, tts, {}⟩, { o with focusNodes := if focus = [] then none else some focus }⟩ i w hab shapes none
 
 end Pyshacl
